@@ -301,6 +301,7 @@ struct LossSample {
 /// instantiated next to the classifier filter and indexed by
 /// `conn_id`.
 #[derive(Debug)]
+#[cfg_attr(feature = "verif-hooks", derive(Clone))]
 pub struct LinkCongestionState {
     pub state: CcState,
     /// Active climb sub-mode. Only meaningful when `state == Climbing`.
@@ -856,6 +857,7 @@ pub struct LinkCcSnapshot {
 /// cumulative NAK count; feeds the per-link state; and produces
 /// snapshots for the stats exporter.
 #[derive(Default)]
+#[cfg_attr(feature = "verif-hooks", derive(Clone))]
 pub struct LinkCcController {
     per_conn: HashMap<u64, LinkCongestionState>,
 }
@@ -1468,5 +1470,79 @@ mod tests {
         );
         // Hard cap from `loss_permille` saturation.
         assert!(pm <= 1_000_000);
+    }
+}
+
+/// Read-only copy of the controller's private state for the verification
+/// harness (canonical keys and monitor inputs only).
+#[cfg(feature = "verif-hooks")]
+#[derive(Clone, Debug, PartialEq)]
+pub struct VerifCcPrivate {
+    pub rtt_ewma_ms: f64,
+    pub rtt_var_ms: f64,
+    pub rtt_min_ms: f64,
+    pub rtt_min_stamp_ms: u64,
+    pub last_rtt_update_ms: u64,
+    /// `(ts_ms, lost, sent)`
+    pub loss_samples: Vec<(u64, u32, u32)>,
+    pub window_lost: u32,
+    pub window_sent: u32,
+    pub fast_recovery_ticks: u32,
+    pub prev_bytes_sent_total: u64,
+    pub prev_nak_total: i32,
+    pub traffic_baseline_set: bool,
+    pub loss_ewma: f64,
+    pub loss_ewma_last_ms: u64,
+    pub loss_high_since_ms: u64,
+    pub loss_degraded: bool,
+    pub backoff_ticks: u32,
+    pub backoff_entry_loss_pm: u32,
+    pub loss_uncongestive: bool,
+    pub uncongestive_ticks: u32,
+}
+
+#[cfg(feature = "verif-hooks")]
+impl LinkCongestionState {
+    pub fn verif_private(&self) -> VerifCcPrivate {
+        VerifCcPrivate {
+            rtt_ewma_ms: self.rtt_ewma_ms,
+            rtt_var_ms: self.rtt_var_ms,
+            rtt_min_ms: self.rtt_min_ms,
+            rtt_min_stamp_ms: self.rtt_min_stamp_ms,
+            last_rtt_update_ms: self.last_rtt_update_ms,
+            loss_samples: self
+                .loss_samples
+                .iter()
+                .map(|s| (s.ts_ms, s.lost, s.sent))
+                .collect(),
+            window_lost: self.window_lost,
+            window_sent: self.window_sent,
+            fast_recovery_ticks: self.fast_recovery_ticks,
+            prev_bytes_sent_total: self.prev_bytes_sent_total,
+            prev_nak_total: self.prev_nak_total,
+            traffic_baseline_set: self.traffic_baseline_set,
+            loss_ewma: self.loss_ewma,
+            loss_ewma_last_ms: self.loss_ewma_last_ms,
+            loss_high_since_ms: self.loss_high_since_ms,
+            loss_degraded: self.loss_degraded,
+            backoff_ticks: self.backoff_ticks,
+            backoff_entry_loss_pm: self.backoff_entry_loss_pm,
+            loss_uncongestive: self.loss_uncongestive,
+            uncongestive_ticks: self.uncongestive_ticks,
+        }
+    }
+}
+
+#[cfg(feature = "verif-hooks")]
+impl LinkCcController {
+    /// Per-link controller state, keyed by `conn_id`.
+    pub fn verif_state(&self, conn_id: u64) -> Option<&LinkCongestionState> {
+        self.per_conn.get(&conn_id)
+    }
+
+    pub fn verif_ids(&self) -> Vec<u64> {
+        let mut v: Vec<u64> = self.per_conn.keys().copied().collect();
+        v.sort_unstable();
+        v
     }
 }
